@@ -36,7 +36,7 @@ RULE = (
     "signature or re-spelling kind, zone class, relativize)."
 )
 RULE += " " + (
-    "Also: end-of-line comments per record under want_comments; $INCLUDE file [origin] against its one-file expansion; signed-looking zones with several RRSIGs per covered type."
+    "Also: end-of-line comments per record under want_comments; $INCLUDE file [origin] against its one-file expansion; signed-looking zones with several RRSIGs per covered type. A node whose first record set is empty; RFC 3597 rdata spelling under a mid-file $ORIGIN."
 )
 ASSUMPTIONS = [
     "records whose own text form does not round-trip (C05 known findings) are kept out of the generated zones; C09 judges the zone-level writer/reader",
